@@ -10,7 +10,7 @@ import pickle
 import re
 from collections import defaultdict, deque
 
-NOISE_MACRO_PREFIXES = ("tracing::", "log::", "metrics::", "tracing_core::")
+NOISE_MACRO_PREFIXES = ("tracing::", "log::", "metrics::", "tracing_core::", "tracing_attributes::")
 NOISE_MACROS_EXACT = ("core::macros::debug_assert", "core::macros::debug_assert_eq",
                       "core::macros::debug_assert_ne")
 
@@ -42,6 +42,50 @@ def strip_generics(s):
     while "::::" in r:
         r = r.replace("::::", "::")
     return r.rstrip(":")
+
+
+def split_qualified(fid):
+    """`<A<T> as B<T>>::rest` -> (A, B, rest) with generics stripped; plain paths -> (None, None, path)"""
+    if fid.startswith("<"):
+        depth = 0
+        for i, ch in enumerate(fid):
+            if ch == "<":
+                depth += 1
+            elif ch == ">":
+                depth -= 1
+                if depth == 0:
+                    inner = fid[1:i]
+                    rest = fid[i + 1:].lstrip(":")
+                    d2 = 0
+                    for j in range(len(inner)):
+                        c2 = inner[j]
+                        if c2 == "<":
+                            d2 += 1
+                        elif c2 == ">":
+                            d2 -= 1
+                        elif d2 == 0 and inner.startswith(" as ", j):
+                            return strip_generics(inner[:j]), strip_generics(inner[j + 4:]), strip_generics(rest)
+                    return strip_generics(inner), None, strip_generics(rest)
+    return None, None, strip_generics(fid)
+
+
+_NV_CACHE = {}
+
+
+def name_variants(k):
+    """generic-stripped spellings of a callee path: for `<A as B>::m` -> [`A::m`, `B::m`, raw-stripped]"""
+    r = _NV_CACHE.get(k)
+    if r is None:
+        a, b, rest = split_qualified(k)
+        if a is None:
+            r = [rest]
+        else:
+            r = ["%s::%s" % (a, rest)]
+            if b:
+                r.append("%s::%s" % (b, rest))
+            r.append(strip_generics(k))
+        _NV_CACHE[k] = r
+    return r
 
 
 class Body(object):
@@ -690,7 +734,7 @@ class Slice(object):
 
     def has_call(self, rx):
         r = re.compile(rx)
-        return any(s[0] == "call" and r.search(s[1]) for s in self.sources)
+        return any(s[0] == "call" and (r.search(s[1]) or any(r.search(n) for n in name_variants(s[1]))) for s in self.sources)
 
     def has_param(self, name):
         return any(s[0] == "param" and s[2] == name for s in self.sources) or ("upvar", name) in self.sources
